@@ -108,15 +108,18 @@ func ReceiveFeedback(item *models.Item) error {
 
 	// Feedback for a seed that is not tracked must not create a state table entry:
 	// a later MarkAsFinished would release a token that was never taken.
-	if _, tracked := globalReactor.stateTable.Load(item.GetID()); !tracked {
-		return ErrFeedbackItemNotPresent
-	}
-
-	item.SetSource(models.ItemSourceFeedback)
-	_, loaded := globalReactor.stateTable.Swap(item.GetID(), item)
-	if !loaded {
-		// An item sent to the feedback channel should be present on the state table, if not present reactor should error out
-		return ErrFeedbackItemNotPresent
+	// The entry is replaced in one atomic step, so that a MarkAsFinished of the same
+	// seed cannot slip in between the lookup and the replacement.
+	for {
+		tracked, loaded := globalReactor.stateTable.Load(item.GetID())
+		if !loaded {
+			// An item sent to the feedback channel should be present on the state table, if not present reactor should error out
+			return ErrFeedbackItemNotPresent
+		}
+		item.SetSource(models.ItemSourceFeedback)
+		if globalReactor.stateTable.CompareAndSwap(item.GetID(), tracked, item) {
+			break
+		}
 	}
 	select {
 	case <-globalReactor.ctx.Done():
